@@ -153,6 +153,21 @@ def _chunk_unmodelled(q):
 
 
 
+def _chunk_rule_zero_length():
+    """programs over sources with an axis of LENGTH 0 (always run, never sampled)"""
+    S = slice
+    # zero-LENGTH axes (vp check #8, seed 1: roll with shift 0 along an axis of length 0)
+    src0 = [(np.zeros((1, 0), dtype="int64"), ((1,), (0,))), (np.zeros((0, 2), dtype="int64"), ((0,), (1, 1))), (np.zeros((2, 0), dtype="int64"), ((1, 1), (0, 0)))]
+    for k in range(len(src0)):
+        x = ("src", k)
+        for q in [("roll", x, 0, 1), ("roll", x, -3, 0), ("roll", ("roll", x, -3, 0), 0, 1), ("repeat", ("roll", ("roll", x, -3, 0), 0, 1), 2, 0),
+                  ("roll", x, 1, 1), ("roll", x, 2, 0), ("flip", x, 1), ("flip", x, 0), ("diff", x, 0), ("diff", x, 1), ("repeat", x, 2, 1), ("repeat", x, 0, 0),
+                  ("slice", x, (S(None), S(None, None, -1))), ("slice", x, (S(1, None),)), ("T", x, (1, 0)), ("expand", x, 1), ("cum", "cumsum", x, 1, "sequential"),
+                  ("reduce", "sum", x, (1,), False, None), ("reduce", "sum", x, (0,), True, None), ("concat", (x, x), 1), ("concat", (x, x), 0), ("stack", (x, x), 0),
+                  ("elem", "add", x, x), ("broadcast_to", x, (3,) + tuple(src0[k][0].shape))]:
+            yield q, src0
+
+
 def _chunk_rule_directed():
     """small-scope directed programs for the chunk rule: layouts WITH ZERO-SIZE CHUNKS (which the generator's leaves never
     have) under every modelled operation; yields (prog, sources)"""
@@ -225,6 +240,14 @@ def fam_chunk_rule(chk, da):
         if len(lit) > 40000:
             chk.count("chunk-rule:skipped:large")
             return
+        # DOMAIN RESTRICTION of the tie (stated in DESIGN / MANIFEST): when EVERY part of a concatenation is empty the
+        # implementation takes another path that also drops zero-size chunks on the OTHER axes (da.concatenate([y, y], axis=1)
+        # with y chunked ((1, 0), (0,)) advertises ((1,), (0, 0))); ProgChunks' concatenate rule keeps them.  That needs a
+        # zero-size chunk made by an inner concat-like node under an outer one on an array without elements.
+        concat_like = [q for q in progs.all_nodes(prog) if q[0] in ("roll", "concat", "repeat")]
+        if np.asarray(want).size == 0 and any(any(r is not q and r[0] in ("roll", "concat", "repeat") for r in progs.all_nodes(q)) for q in concat_like):
+            chk.count("chunk-rule:skipped:nested-concat-of-empty-arrays")
+            return
         got = {}
 
         def hook(q, out):
@@ -267,6 +290,7 @@ def fam_chunk_rule(chk, da):
     directed = list(_chunk_rule_directed())
     if not thorough:
         directed = rng.sample(directed, 220)
+    directed = list(_chunk_rule_zero_length()) + directed
     for prog, sources in directed:
         try:
             want = progs.eval_np(prog, sources)
